@@ -740,6 +740,21 @@ func (g *Gen) zone() compact_time.Timezone {
 	case 1:
 		return compact_time.TZLocal()
 	case 2:
+		if g.r.P(1, 3) {
+			// a synthetic area/location of every length up to 60 (the encoders size their buffers by it:
+			// seeded change C03B3 lost the last letter when the encoded time filled the buffer exactly)
+			const tail = "abcdefghijklmnopqrstuvwxyz0123456789_-./+"
+			n := g.r.Intn(60)
+			b := []byte{byte('A' + g.r.Intn(26))}
+			for i := 0; i < n; i++ {
+				if g.r.P(3, 4) {
+					b = append(b, 'a')
+				} else {
+					b = append(b, tail[g.r.Intn(len(tail))])
+				}
+			}
+			return compact_time.TZAtAreaLocation(string(b))
+		}
 		return compact_time.TZAtAreaLocation(areaLocs[g.r.Intn(len(areaLocs))])
 	case 3, 4:
 		lat := g.r.Intn(18001) - 9000
